@@ -83,6 +83,7 @@ package notify
 //@   ensures [no-quiet-cancel] result2 == nil ==> result1 == alerts || (called("Context).Err") && ret("Context).Err") == nil)
 //@   ensures [success-means-delivered] result2 == nil && called("Integration).Notify") && result1 != nil ==> ret1("Integration).Notify") == nil && result1 == alerts
 //@   ensures [unrecoverable-fails] called("Integration).Notify") && ret1("Integration).Notify") != nil && !ret("Integration).Notify") ==> result2 != nil
+//@   ensures [recoverable-failure-is-retried-until-the-context-ends] called("Integration).Notify") && ret1("Integration).Notify") != nil && ret("Integration).Notify") ==> result1 == nil
 //@   ensures [input-untouched] forall j int :: 0 <= j && j < len(alerts) ==> alerts[j] == old(alerts[j])
 //@   ensures [nothing-to-send] !called("Integration).Notify") && result2 == nil && result1 != nil ==> !ret("Integration).SendResolved") && result1 == alerts
 //@   loop 1 invariant rangeindex < len(alerts) && (sent == nil || fresh(sent)) && (called("time.Now") ==> first("time.Now") <= clock()) && (!called("time.Now") ==> len(sent) == 0)
